@@ -34,8 +34,10 @@ func main() {
 	hk.Main(&hk.Component{Name: "ctx",
 		Rule: "per server kind (Streamable stateful / stateless / sessions off, legacy SSE) several servers with 2-3 random context functions " +
 			"(header read, key bound, key looked at; the last one binds the role key, an earlier one may bind it too and is overridden), 1-3 observing middlewares, " +
-			"role filters on tools / prompts / resources; 8+ raw clients (own session each, two sharing one) and 3 library clients per server issue " +
-			"list / call / get / read / ping / notification requests concurrently, every request with its own token in three headers and a random role; " +
+			"role filters on tools / prompts / resources in three styles (allocating; compacting their input in place; sorting it in place first); 12+ raw clients " +
+			"(own session each, two sharing one; half of them only list, with alternating roles) and 3 library clients per server issue " +
+			"list / call / get / read / ping / notification requests concurrently, every request with its own token in three headers and a role; every fourth request " +
+			"lingers 0.3 ms in the outermost middleware after next() returned; " +
 			"a case is non-trivial when the request was answered and every expected stage recorded its context",
 		Run: run})
 }
@@ -431,7 +433,7 @@ func (rc *realClient) do(spec reqSpec) *result {
 // ---- oracle (model-free)
 
 func (s *server) describe() map[string]any {
-	return map[string]any{"kind": s.kind, "fns": s.fnsJSON(), "middlewares": s.nmw, "roleKey": s.roleKey}
+	return map[string]any{"kind": s.kind, "fns": s.fnsJSON(), "middlewares": s.nmw, "roleKey": s.roleKey, "filterStyle": s.style}
 }
 
 func (s *server) fnsJSON() []any {
@@ -642,7 +644,10 @@ func (s *server) judge(c *hk.Ctx, r *result) (tempSid string, complete bool) {
 			}
 		}
 		sort.Strings(wantNames)
-		for _, n := range r.list {
+		for i, n := range r.list {
+			if i > 0 && r.list[i-1] == n {
+				viol("list-duplicate", fmt.Sprintf("%s answer for role %s contains %s twice", r.spec.Method, r.spec.Role, n), wantNames)
+			}
 			if hiddenNames[n] {
 				viol("filter-leak", fmt.Sprintf("%s answer for role %s contains %s, which the filter hides from that role", r.spec.Method, r.spec.Role, n), wantNames)
 			}
@@ -716,7 +721,7 @@ func (s *server) emit(c *hk.Ctx, r *result) {
 		mws = append(mws, i)
 	}
 	op := map[string]any{"c": "ctx.req", "mode": s.kind, "fns": s.fnsJSON(), "mws": mws, "roleKey": s.roleKey, "keys": s.keys, "reg": reg,
-		"hdrs": hdrs, "sid": sid, "acceptSSE": r.spec.AcceptSSE, "method": r.spec.Method, "client": r.spec.Client}
+		"hdrs": hdrs, "sid": sid, "acceptSSE": r.spec.AcceptSSE, "method": r.spec.Method, "client": r.spec.Client, "filterStyle": s.style}
 	c.Emit(op, map[string]any{"obs": ol, "list": list}, complete, s.kind+":"+r.spec.Method, "client:"+r.spec.Client)
 }
 
@@ -737,9 +742,9 @@ func genFns(c *hk.Ctx, roleKey int) []fnSpec {
 
 type worker func(start <-chan struct{}, out chan<- *result)
 
-func runServer(c *hk.Ctx, kind, name string, nRaw, perRaw, nReal, perReal int) error {
+func runServer(c *hk.Ctx, kind, name, style string, nRaw, perRaw, nReal, perReal int) error {
 	roleKey := []int{10, 11, 12}[c.Rng.Intn(3)]
-	s, err := newServer(kind, name, genFns(c, roleKey), 1+c.Rng.Intn(3), roleKey)
+	s, err := newServer(kind, name, genFns(c, roleKey), 1+c.Rng.Intn(3), roleKey, style)
 	if err != nil {
 		return err
 	}
@@ -794,6 +799,13 @@ func runServer(c *hk.Ctx, kind, name string, nRaw, perRaw, nReal, perReal int) e
 		for k := range specs {
 			n, tok := newTok()
 			sp := reqSpec{N: n, Tok: tok, Role: roles[c.Rng.Intn(len(roles))], Method: methods[c.Rng.Intn(len(methods))], Client: "raw"}
+			if i >= nRaw/2 { // list storm: the second half of the raw clients only list, with alternating roles
+				sp.Method = methods[c.Rng.Intn(3)]
+				if c.Rng.Intn(2) == 0 {
+					sp.Method = "tools/list"
+				}
+				sp.Role = roles[(i+k)%len(roles)]
+			}
 			if kind != "sse" && sp.Method != "notify" {
 				sp.AcceptSSE = c.Rng.Intn(2) == 0
 			}
@@ -872,7 +884,8 @@ func runServer(c *hk.Ctx, kind, name string, nRaw, perRaw, nReal, perReal int) e
 
 func run(c *hk.Ctx) {
 	kinds := []string{"stateful", "stateless", "sessionsOff", "sse"}
-	servers, nRaw, perRaw, nReal, perReal := 3, 10, 50, 3, 15
+	styles := []string{"alloc", "compact", "sort"}
+	servers, nRaw, perRaw, nReal, perReal := 3, 12, 50, 3, 15
 	procs := []int{0, 2}
 	if c.Thorough() {
 		servers, nRaw, perRaw, nReal, perReal = 6, 24, 100, 4, 40
@@ -888,7 +901,7 @@ func run(c *hk.Ctx) {
 		runtime.GOMAXPROCS(p)
 		for _, k := range kinds {
 			for i := 0; i < servers; i++ {
-				if err := runServer(c, k, fmt.Sprintf("%s-%d-p%d", k, i, p), nRaw, perRaw, nReal, perReal); err != nil {
+				if err := runServer(c, k, fmt.Sprintf("%s-%d-p%d", k, i, p), styles[i%len(styles)], nRaw, perRaw, nReal, perReal); err != nil {
 					c.Violate(hk.Violation{Fingerprint: "ctx:" + k + ":setup", What: "could not set up the scenario: " + err.Error(), Input: k})
 				}
 				total += nRaw*perRaw + nReal*perReal
